@@ -84,7 +84,9 @@ Print Assumptions C13_model_satisfies_oracle.
 (* ... and the second scan [oracle_C13_strict]: for every configuration and client stream, the first result
    a handler sees in the turn of a message other than CopyDone / Flush / Sync is never end-of-stream (a
    Terminate, Query, ... inside COPY is an error, never a normal end), and after a CopyInResponse the turn of
-   a message exceeding the size limit is never silent *)
+   a message exceeding the size limit is never silent, and between the start of a statement function and any
+   result it sees no message other than Flush / Sync passed without a reply and without a result (no CopyData
+   is ever skipped on its way to the reading handler, whatever its payload spells) *)
 Theorem C13_model_satisfies_strict : forall sc,
   (forall v after rest, start (cfg_of_case sc) (sc_raw sc) = Some (v, after, rest) -> v <> version_ssl) ->
   oracle_C13_strict sc (run_case sc) = true.
